@@ -314,6 +314,10 @@ class Runner:
             "selfb": self.table(rep, bs, bs, False, D),
             "selfc": self.table(rep, cs, cs, False, D),
         }
+        where = {}
+        for k, r in enumerate(item["swp"]):
+            where.setdefault(r["s"], k + 1)
+        item["pairing"] = [where.get(r["s"], 0) if r["s"] else 0 for r in item["fwd"]]
         for fmt, key in (("markdown", "md"), ("csv", "csv")):
             item[key] = self.report(proc, fmt, r1, r2)
         return item
